@@ -2,6 +2,7 @@ mod db;
 mod fw;
 mod hist;
 mod internal;
+mod jsonx;
 mod props;
 mod query;
 mod script;
@@ -16,6 +17,7 @@ fn arg_val(args: &[String], name: &str) -> Option<String> {
 fn replay_fn(prop: &str) -> Option<fn(&str, &serde_json::Value) -> Verdict> {
     match prop {
         "C02" => Some(props::c02::replay),
+        "C07" => Some(props::c07::replay),
         _ => None,
     }
 }
@@ -45,6 +47,7 @@ fn main() {
             let ctx = Ctx::new(&prop, tier, seed);
             let code = match prop.as_str() {
                 "C02" => props::c02::run(&ctx),
+                "C07" => props::c07::run(&ctx),
                 _ => {
                     eprintln!("unknown property {}", prop);
                     2
@@ -55,8 +58,12 @@ fn main() {
         "mk-known" => {
             // write replays/<prop>/known-<id>.json for the hand-built known-finding inputs
             let prop = args.get(2).expect("property id").to_string();
-            let cases: Vec<(&'static str, &'static str, serde_json::Value)> = match prop.as_str() {
-                "C02" => props::c02::known_cases(),
+            let regress = args.iter().any(|a| a == "--regress");
+            let prefix = if regress { "regress" } else { "known" };
+            let cases: Vec<(&'static str, &'static str, serde_json::Value)> = match (prop.as_str(), regress) {
+                ("C02", false) => props::c02::known_cases(),
+                ("C02", true) => props::c02::regress_cases(),
+                ("C07", true) => props::c07::regress_cases(),
                 _ => vec![],
             };
             let f = replay_fn(&prop).expect("replay fn");
@@ -70,7 +77,7 @@ fn main() {
                     Verdict::Discard(r) => (format!("DISCARD {}", r), serde_json::Value::Null),
                 };
                 let body = serde_json::json!({"property": prop, "check": check, "signature": sig, "detail": detail, "case": case});
-                let path = dir.join(format!("known-{}.json", id));
+                let path = dir.join(format!("{}-{}.json", prefix, id));
                 std::fs::write(&path, serde_json::to_string_pretty(&body).unwrap()).unwrap();
                 println!("{} -> {} ({})", id, sig, path.display());
             }
